@@ -21,6 +21,7 @@ SEMANTIC = [
     (r"^possible bit shift underflow/overflow", "overflow"),
     (r"^recommendation not met", None),
     (r"^unable to prove assertion", "assert"),
+    (r"^unable to prove post-condition of closure", "post"),
     (r"^could not prove termination", "decreases"),
     (r"index out of bounds|possible .* out of bounds", "bounds"),
     (r"^possible truncation|^cast .* may (truncate|overflow)", "cast"),
